@@ -465,8 +465,8 @@ def openTty {τ : Type} (makeRaw : τ → τ) (env : OpenEnv τ) : Option τ × 
 /-! ## line protocol
 
 The driver instantiates the decoder with `simpleDec`, which covers what the harness' peer sends: printable
-ASCII (one key event per byte) and CSI sequences (`ESC [ … final`), `c` final = device attributes, `t` final =
-size report.  It is NOT the production decoder (C02–C04 model that); the tie checked here is the loop.
+ASCII (one key event per byte) and CSI sequences (`ESC [ … final`), `c` final = device attributes, the pair
+`ESC [ 8 ; h ; w t ESC [ 4 ; h ; w t` = one size report.  It is NOT the production decoder (C02–C04 model that); the tie checked here is the loop.
 -/
 
 inductive SEv where
@@ -489,8 +489,22 @@ def scan : Nat → List Nat → List SEv → List SEv × List Nat
         match body.drop params.length with
         | [] => (acc.reverse, b :: bs)
         | fin :: rest =>
-          let ev := if fin = 99 then SEv.da else if fin = 116 then SEv.size else SEv.other (27 :: 91 :: params ++ [fin])
-          scan fuel rest (ev :: acc)
+          if fin = 116 && params.head? == some 56 then
+            -- `ESC [ 8 ; h ; w t` must be followed by `ESC [ 4 ; h ; w t`: one size event for the pair
+            match rest with
+            | [] => (acc.reverse, b :: bs)
+            | [27] => (acc.reverse, b :: bs)
+            | 27 :: 91 :: body2 =>
+              let params2 := body2.takeWhile (fun c => !(0x40 ≤ c && c < 0x7f))
+              match body2.drop params2.length with
+              | [] => (acc.reverse, b :: bs)
+              | fin2 :: rest2 =>
+                if fin2 = 116 && params2.head? == some 52 then scan fuel rest2 (SEv.size :: acc)
+                else scan fuel rest (SEv.other (27 :: 91 :: params ++ [fin]) :: acc)
+            | _ => scan fuel rest (SEv.other (27 :: 91 :: params ++ [fin]) :: acc)
+          else
+            let ev := if fin = 99 then SEv.da else SEv.other (27 :: 91 :: params ++ [fin])
+            scan fuel rest (ev :: acc)
       | c :: rest => scan fuel rest (SEv.other [27, c] :: acc)
     else scan fuel bs (SEv.key b :: acc)
 
